@@ -54,6 +54,7 @@ class Exec {
   bool failed() const;
   const Violation& violation() const;
   Stats& stats();
+  const std::vector<uint64_t>& state_hashes() const;
   uint64_t log_hash() const;          // hash of the normalised event log (determinism gate)
   std::string fingerprint() const;    // abstracted operation/decision sequence (distinctness measure)
   int nontrivial_for(const char* prop) const;  // number of decisions this run gave the property's oracle
